@@ -63,8 +63,13 @@ async fn run_step(script: &Script, log: &Log, observer: &Option<ractor::ActorCel
             _ => {}
         }
     }
+    let ticking = step.actions.iter().any(|a| a == "ticks");
     for _ in 0..step.yields {
         tokio::task::yield_now().await;
+        if ticking {
+            // the callback made progress after being resumed
+            log.lock().unwrap().push(format!("tick:{}", name));
+        }
     }
     guard.done = true;
     log.lock().unwrap().push(format!("end:{}:{}", name, step.outcome));
@@ -259,6 +264,18 @@ pub fn run(a: &Args) {
             }
             Ok((r, handle)) => {
                 log.lock().unwrap().push("start_ok".to_string());
+                if let Some(n) = a.opt_u128("kill_after_ticks") {
+                    // an external kill delivered while a ticking callback is suspended between two polls of the actor task
+                    for _ in 0..2000 {
+                        let cnt = log.lock().unwrap().iter().filter(|l| l.starts_with("tick:")).count();
+                        if cnt >= n as usize {
+                            break;
+                        }
+                        tokio::task::yield_now().await;
+                    }
+                    r.kill();
+                    log.lock().unwrap().push("killed_externally".to_string());
+                }
                 let abort_after = a.opt_u128("abort_after_entries").map(|x| x as usize);
                 if let Some(n) = abort_after {
                     // abort the actor task once the log shows the first n callback entries (the task is then suspended)
